@@ -91,10 +91,10 @@ inductive Verified (c : Codec) : Bytes → Bytes → Prop where
       Verified c (((buf.drop used).drop 8).drop hl) more →
       Verified c buf (payload ++ more)
 
-theorem gzBody_ok_verified (c : Codec) (buf data : Bytes) (h : gzBody c buf = .ok data) :
+theorem gzBody_ok_verified (c : Codec) (buf data : Bytes) (ne : Bool) (h : gzBody c buf = .ok (data, ne)) :
     Verified c buf data := by
   generalize hn : buf.length = n
-  induction n using Nat.strongRecOn generalizing buf data with
+  induction n using Nat.strongRecOn generalizing buf data ne with
   | ind n ih =>
     rw [gzBody] at h
     split at h
@@ -116,6 +116,7 @@ theorem gzBody_ok_verified (c : Codec) (buf data : Bytes) (h : gzBody c buf = .o
           · rename_i heof
             have hnil := (readHeader_eof_iff _ _).1 heof
             injection h with h
+            injection h with h _
             subst h
             refine Verified.single tr ?_
             have : ((buf.drop used).drop 8).length = 0 := by rw [hnil]; rfl
@@ -125,13 +126,53 @@ theorem gzBody_ok_verified (c : Codec) (buf data : Bytes) (h : gzBody c buf = .o
           · rename_i hdr hl hh
             split at h
             · simp at h
-            · rename_i p2 hrec
+            · rename_i p2 ne2 hrec
               injection h with h
+              injection h with h _
               subst h
               have hlt : (((buf.drop used).drop 8).drop hl).length < n := by
                 simp only [List.length_drop] at h8 ⊢
                 omega
-              exact Verified.multi tr hh (ih _ hlt _ _ hrec rfl)
+              exact Verified.multi tr hh (ih _ hlt _ _ _ hrec rfl)
+
+/-! ### the block buffer: `readToEOF` -/
+
+/-- With the probe byte counted (repaired), `readToEOF` succeeds only with everything the gzip reader
+delivered up to its verified end, and only if that fits the block. -/
+theorem readToEOF_ok {q : Quirks} (hq : q.dummyReadCountIgnored = false)
+    {r : Except (Err × Nat) (Bytes × Bool)} {p : Bytes} (h : readToEOF q r = .ok p) :
+    ∃ ne, r = .ok (p, ne) ∧ p.length ≤ MaxBlockSize := by
+  unfold readToEOF at h
+  split at h
+  · rename_i data ne
+    split at h
+    · rename_i hle
+      injection h with h
+      subst h
+      exact ⟨ne, rfl, hle⟩
+    · simp [hq] at h
+  · split at h
+    · simp at h
+    · split at h <;> simp at h
+
+/-- `readToEOF` reports `io.EOF` as an error only if the gzip reader did (which it never does). -/
+theorem readToEOF_error_eof {q : Quirks} {r : Except (Err × Nat) (Bytes × Bool)}
+    (h : readToEOF q r = .error .eof) : ∃ n, r = .error (.eof, n) := by
+  unfold readToEOF at h
+  split at h
+  · split at h
+    · simp at h
+    · split at h <;> simp at h
+  · rename_i e produced
+    split at h
+    · injection h with h
+      subst h
+      exact ⟨produced, rfl⟩
+    · split at h
+      · injection h with h
+        subst h
+        exact ⟨produced, rfl⟩
+      · simp at h
 
 /-! ### what `readMember` frames is exactly the BSIZE+1 bytes the header announces -/
 
@@ -170,11 +211,10 @@ theorem readMember_rest_lt (q : Quirks) (c : Codec) (s : Bytes) (f : Framed) (h 
   simp only [List.length_append] at this
   omega
 
-/-- **Data only after verification**, one block: `readBlock` succeeds only if the framed member body
-passed the gzip reader's trailer verification, and what it returns is exactly what was verified. -/
-theorem readBlock_ok_verified (q : Quirks) (c : Codec) (s payload rest : Bytes)
+/-- whatever `readBlock` returns, it framed a member by BSIZE and continues right after it (every variant) -/
+theorem readBlock_ok_framed (q : Quirks) (c : Codec) (s payload rest : Bytes)
     (h : readBlock q c s = .ok (payload, rest)) :
-    ∃ f, readMember q c s = .ok f ∧ f.rest = rest ∧ Verified c f.body payload ∧ payload.length ≤ MaxBlockSize := by
+    ∃ f, readMember q c s = .ok f ∧ f.rest = rest ∧ readToEOF q (gzBody c f.body) = .ok payload := by
   unfold readBlock at h
   split at h
   · simp at h
@@ -182,18 +222,25 @@ theorem readBlock_ok_verified (q : Quirks) (c : Codec) (s payload rest : Bytes)
     split at h
     · simp at h
     · rename_i p hp
-      split at h
-      · simp at h
-      · rename_i hfit
-        injection h with h
-        injection h with h1 h2
-        subst h1; subst h2
-        exact ⟨f, hf, rfl, gzBody_ok_verified c _ _ hp, by omega⟩
+      injection h with h
+      injection h with h1 h2
+      subst h1; subst h2
+      exact ⟨f, hf, rfl, hp⟩
+
+/-- **Data only after verification**, one block (probe byte counted, i.e. fix C10-4 applied): `readBlock`
+succeeds only if the framed member body passed the gzip reader's trailer verification, and what it
+returns is exactly, and all of, what was verified. -/
+theorem readBlock_ok_verified (q : Quirks) (hq : q.dummyReadCountIgnored = false) (c : Codec)
+    (s payload rest : Bytes) (h : readBlock q c s = .ok (payload, rest)) :
+    ∃ f, readMember q c s = .ok f ∧ f.rest = rest ∧ Verified c f.body payload ∧ payload.length ≤ MaxBlockSize := by
+  obtain ⟨f, hf, hr, hp⟩ := readBlock_ok_framed q c s payload rest h
+  obtain ⟨ne, hg, hfit⟩ := readToEOF_ok hq hp
+  exact ⟨f, hf, hr, gzBody_ok_verified c _ _ ne hg, hfit⟩
 
 /-- the dead branch of `readAll` is dead -/
 theorem readBlock_rest_lt (q : Quirks) (c : Codec) (s payload rest : Bytes)
     (h : readBlock q c s = .ok (payload, rest)) : rest.length < s.length := by
-  obtain ⟨f, hf, hr, _, _⟩ := readBlock_ok_verified q c s payload rest h
+  obtain ⟨f, hf, hr, _⟩ := readBlock_ok_framed q c s payload rest h
   rw [← hr]; exact readMember_rest_lt q c s f hf
 
 /-- `Delivered q c s blocks e`: reading `s` framed and verified exactly the members `blocks`
@@ -204,10 +251,10 @@ inductive Delivered (q : Quirks) (c : Codec) : Bytes → List (Framed × Bytes) 
       readMember q c s = .ok f → Verified c f.body payload → payload.length ≤ MaxBlockSize →
       Delivered q c f.rest bs e → Delivered q c s ((f, payload) :: bs) e
 
-/-- **Data only after verification**, whole stream, for EVERY byte string and every reader variant:
-all data `readAll` returns is the concatenation of payloads of members it framed by BSIZE and whose
-gzip trailers were verified. -/
-theorem readAll_delivered (q : Quirks) (c : Codec) (s : Bytes) :
+/-- **Data only after verification**, whole stream, for EVERY byte string and every reader variant that
+counts the probe byte: all data `readAll` returns is the concatenation of payloads of members it framed
+by BSIZE and whose gzip trailers were verified. -/
+theorem readAll_delivered (q : Quirks) (hq : q.dummyReadCountIgnored = false) (c : Codec) (s : Bytes) :
     ∃ blocks, Delivered q c s blocks (readAll q c s).2 ∧
       (readAll q c s).1 = (blocks.map (·.2)).flatten := by
   generalize hn : s.length = n
@@ -219,7 +266,7 @@ theorem readAll_delivered (q : Quirks) (c : Codec) (s : Bytes) :
       exact ⟨[], Delivered.stop he, by simp⟩
     · rename_i payload rest hb
       have hlt := readBlock_rest_lt q c s payload rest hb
-      obtain ⟨f, hf, hr, hv, hfit⟩ := readBlock_ok_verified q c s payload rest hb
+      obtain ⟨f, hf, hr, hv, hfit⟩ := readBlock_ok_verified q hq c s payload rest hb
       simp only [hlt, dite_true]
       obtain ⟨bs, hd, hdata⟩ := ih rest.length (by omega) rest rfl
       refine ⟨(f, payload) :: bs, Delivered.block hf hv hfit (by rw [hr]; exact hd), ?_⟩
@@ -241,9 +288,9 @@ theorem readAll_eq (q : Quirks) (c : Codec) (s : Bytes) :
 
 /-! ### the repaired reader reports a clean end only at the true end of the input -/
 
-theorem gzBody_ne_eof (c : Codec) (buf : Bytes) : gzBody c buf ≠ .error .eof := by
+theorem gzBody_ne_eof (c : Codec) (buf : Bytes) (k : Nat) : gzBody c buf ≠ .error (.eof, k) := by
   generalize hn : buf.length = n
-  induction n using Nat.strongRecOn generalizing buf with
+  induction n using Nat.strongRecOn generalizing buf k with
   | ind n ih =>
     intro h
     rw [gzBody] at h
@@ -259,15 +306,17 @@ theorem gzBody_ne_eof (c : Codec) (buf : Bytes) : gzBody c buf ≠ .error .eof :
           · simp at h
           · rename_i e hne hh
             injection h with h
+            injection h with h _
             exact hne (by rw [h])
           · rename_i hdr hl hh
             split at h
-            · rename_i e hrec
+            · rename_i e k2 hrec
               injection h with h
+              injection h with h _
               have hlt : (((buf.drop used).drop 8).drop hl).length < n := by
                 simp only [List.length_drop] at h8 ⊢
                 omega
-              exact ih _ hlt _ rfl (by rw [hrec, h])
+              exact ih _ hlt _ k2 rfl (by rw [hrec, h])
             · simp at h
 
 theorem readMember_repaired_eof (c : Codec) (s : Bytes) (h : readMember .repaired c s = .error .eof) : s = [] := by
@@ -298,8 +347,9 @@ theorem readBlock_repaired_eof (c : Codec) (s : Bytes) (h : readBlock .repaired 
     · rename_i e he
       injection h with h
       subst h
-      exact absurd he (gzBody_ne_eof c _)
-    · split at h <;> simp at h
+      obtain ⟨k, hk⟩ := readToEOF_error_eof he
+      exact absurd hk (gzBody_ne_eof c _ k)
+    · simp at h
 
 /-- the whole input is a sequence of members, each framed by its BSIZE and verified -/
 inductive FullyFramed (c : Codec) : Bytes → Bytes → Prop where
@@ -326,7 +376,7 @@ theorem clean_end_fully_framed (c : Codec) (s : Bytes) (h : (readAll .repaired c
       exact FullyFramed.nil
     · rename_i payload rest hb
       have hlt := readBlock_rest_lt .repaired c s payload rest hb
-      obtain ⟨f, hf, hr, hv, hfit⟩ := readBlock_ok_verified .repaired c s payload rest hb
+      obtain ⟨f, hf, hr, hv, hfit⟩ := readBlock_ok_verified .repaired rfl c s payload rest hb
       simp only at h ⊢
       subst hr
       exact FullyFramed.cons hf hv hfit (ih _ (by omega) _ h rfl)
